@@ -26,6 +26,7 @@ func init() { vh.Register("C02", Run) }
 const (
 	sigMulti    = "ctl:break-continue-level-ignored"
 	sigNoReturn = "ctl:implicit-return-value"
+	sigArity    = "ctl:missing-argument-is-null"
 	modelFuel   = 20000
 	refBudgetN  = 30000
 )
@@ -45,13 +46,14 @@ type implRes struct {
 func (r implRes) String() string { return r.Status + "|" + r.Out }
 
 type runner struct {
-	c       *vh.Ctx
-	m       *vh.Model
-	pool    *pool
-	n       int
-	pending []gcase
-	shrunk  map[string]int
-	stopped bool
+	c          *vh.Ctx
+	m          *vh.Model
+	pool       *pool
+	n          int
+	pending    []gcase
+	shrunk     map[string]int
+	shrinkRuns int
+	stopped    bool
 }
 
 func (r *runner) tagFor() string { r.n++; return strconv.Itoa(r.n) }
@@ -136,6 +138,8 @@ func sigOf(p *Prog, kind string) string {
 		return sigMulti
 	case p.ImplicitReturn():
 		return sigNoReturn
+	case !p.ArityOK():
+		return sigArity
 	}
 	return "ctl:{" + strings.Join(p.Features(), ",") + "}/" + kind
 }
@@ -198,6 +202,9 @@ func (r *runner) flush() {
 		fmt.Fprintf(os.Stderr, "[%6.1fs]   origami answered\n", c.Elapsed().Seconds())
 	}
 	for i, g := range cases {
+		if r.stopped {
+			break
+		}
 		p := g.Prog
 		if dbg {
 			fmt.Fprintf(os.Stderr, "[%6.1fs]   case %d\n", c.Elapsed().Seconds(), i)
@@ -224,7 +231,9 @@ func (r *runner) flush() {
 			spec := parseModel(answers[4*i+1])
 			nodes := answers[4*i+2]
 			frag := answers[4*i+3]
-			if model.Status != impl.Status || model.Out != impl.Out {
+			if model.Status == "timeout" && (impl.Status == "died" || impl.Status == "hang") {
+				c.Hit("both-diverge") // the model runs out of fuel, the interpreter out of stack / time
+			} else if model.Status != impl.Status || model.Out != impl.Out {
 				c.Mismatch(g, impl.String(), model.String(), "Model.Ctl.run vs origami")
 			}
 			if spec.Status != ref.Status || spec.Out != ref.Out {
@@ -254,7 +263,8 @@ func (r *runner) flush() {
 			continue
 		}
 		kind := divergenceKind(impl, ref)
-		known := g.Stream == "known-multi" && p.MultiLevel() || g.Stream == "known-noreturn" && p.ImplicitReturn()
+		known := g.Stream == "known-multi" && p.MultiLevel() || g.Stream == "known-noreturn" && p.ImplicitReturn() ||
+			g.Stream == "known-arity" && !p.ArityOK()
 		quick := sigOf(p, kind)
 		if known && r.shrunk[quick] >= 2 {
 			// already have shrunk witnesses of this known kind; the model explains this one too
@@ -266,7 +276,10 @@ func (r *runner) flush() {
 		if dbg {
 			fmt.Fprintf(os.Stderr, "[%6.1fs]   shrinking case %d (%s, %s)\n", c.Elapsed().Seconds(), i, g.Stream, kind)
 		}
-		sp := r.shrink(p, g.Stream, ref.Status, kind)
+		sp := p
+		if os.Getenv("C02_NOSHRINK") == "" {
+			sp = r.shrink(p, g.Stream, ref.Status, kind)
+		}
 		if dbg {
 			fmt.Fprintf(os.Stderr, "[%6.1fs]   shrunk\n", c.Elapsed().Seconds())
 		}
@@ -278,6 +291,11 @@ func (r *runner) flush() {
 		what := fmt.Sprintf("origami prints %q (%s), the reference semantics prescribe %q (%s) [%s] for:\n%s", simpl.Out, simpl.Status, sref.Out, sref.Status, skind, sp.Source(""))
 		c.Violation(sig, what, gcase{Prog: sp, Stream: g.Stream, Source: sp.Source("")})
 		c.Hit("divergence:" + sig)
+		if c.Res.ViolationCount >= 40 && !r.stopped {
+			// plenty of failing inputs: the verdict is settled, do not spend the budget on more
+			r.stopped = true
+			c.Note("stopped after %d violations", c.Res.ViolationCount)
+		}
 	}
 }
 
@@ -401,9 +419,20 @@ func reduce(p *Prog, k int) (*Prog, bool) {
 // known streams the program stays inside the fragment, so that a main-stream failure can
 // never be signed as a known finding.
 func (r *runner) shrink(p *Prog, stream string, refStatus, kind string) *Prog {
+	origUndef := RunRef(p, refBudgetN).Undef
 	keepFragment := !strings.HasPrefix(stream, "known") && p.InFragment()
 	cur := p
 	budget := 300
+	if kind == "hang" || kind == "died" {
+		budget = 10 // every candidate may cost a full timeout
+		if r.shrunk["#"+kind] >= 2 {
+			budget = 0 // two shrunk witnesses of a hang are enough
+		}
+		r.shrunk["#"+kind]++
+	}
+	if r.shrinkRuns > 3000 {
+		budget = 0
+	}
 	for improved := true; improved && budget > 0; {
 		improved = false
 		for k := 0; budget > 0; k++ {
@@ -414,11 +443,23 @@ func (r *runner) shrink(p *Prog, stream string, refStatus, kind string) *Prog {
 			if keepFragment && !q.InFragment() || badCaseBreak(q) {
 				continue
 			}
+			// shrinking never introduces a construct with a known finding that the case did not have
+			if q.MultiLevel() && !p.MultiLevel() || q.ImplicitReturn() && !p.ImplicitReturn() || !q.ArityOK() && p.ArityOK() {
+				continue
+			}
+			// in a known stream the construct the stream is about stays in the program
+			if stream == "known-multi" && !q.MultiLevel() || stream == "known-noreturn" && !q.ImplicitReturn() ||
+				stream == "known-arity" && q.ArityOK() {
+				continue
+			}
 			ref := RunRef(q, refBudgetN)
-			if ref.Status != refStatus { // e.g. an initialisation was removed: a different program class
+			if ref.Status != refStatus || ref.Undef && !origUndef {
+				// e.g. an initialisation was removed: a different class of programs (reading an
+				// unset variable makes the scalar layer, not control flow, decide)
 				continue
 			}
 			budget--
+			r.shrinkRuns++
 			impl := r.runImpl(q, r.tagFor())
 			if differs(impl, ref) && divergenceKind(impl, ref) == kind {
 				cur = q
@@ -606,9 +647,18 @@ func corpus() []gcase {
 		Main: []*S{Echo(Call(0, Int(4)))}})
 	add("corpus", &Prog{Funs: []*Fn{{Name: 0, Body: []*S{Foreach(List(1, 2, 3), -1, 60, []*S{While(Bool(true), []*S{If(Bin("eq", Var(60), Int(2)), []*S{Ret(Bin("cat", Str("r"), Var(60)))}, nil), Break(1)})}), Ret(Str("none"))}}},
 		Main: []*S{Echo(Call(0))}})
+	// the Lean negation witnesses progBreak2 / progContinue2 / progNoReturn / progTooFew, verbatim
+	forUp := func(x int, n int64, body []*S) *S {
+		return For([]*E{Set(x, Int(0))}, Bin("lt", Var(x), Int(n)), []*E{Inc("postinc", x)}, body)
+	}
+	add("known-multi", &Prog{Main: []*S{forUp(0, 2, []*S{forUp(1, 2, []*S{Break(2)}), Echo(Str("a"))})}})
+	add("known-multi", &Prog{Main: []*S{forUp(0, 2, []*S{Switch(Int(1), []Case{{L: Int(1), B: []*S{Continue(2)}}}, nil), Echo(Str("a"))})}})
 	// known: levels
 	add("known-multi", &Prog{Main: []*S{For([]*E{Set(i, Int(0))}, Bin("lt", Var(i), Int(3)), []*E{Inc("postinc", i)}, []*S{For([]*E{Set(j, Int(0))}, Bin("lt", Var(j), Int(3)), []*E{Inc("postinc", j)}, []*S{If(Bin("eq", Var(j), Int(1)), []*S{Break(2)}, nil), Echo(Str("f"), Var(i), Var(j), Str(" "))})})}})
 	add("known-multi", &Prog{Main: []*S{For([]*E{Set(i, Int(0))}, Bin("lt", Var(i), Int(3)), []*E{Inc("postinc", i)}, []*S{Switch(Var(i), []Case{{L: Int(1), B: []*S{Continue(2)}}}, []*S{Echo(Str("d"), Var(i), Str(" "))}), Echo(Str("after"), Var(i), Str(" "))})}})
+	// known: a missing required argument is null, not an error
+	add("known-arity", &Prog{Funs: []*Fn{{Name: 0, Params: []Param{{X: 70}, {X: 71}}, Body: []*S{Ret(Var(70))}}},
+		Main: []*S{Echo(Call(0, Int(1))), Echo(Str("after"))}})
 	// known: implicit return value
 	add("known-noreturn", &Prog{Funs: []*Fn{{Name: 0, Body: []*S{ExprS(Set(i, Int(5)))}}}, Main: []*S{Echo(Str("["), Call(0), Str("]"))}})
 	return cs
